@@ -80,6 +80,9 @@ def rule_per_record(ctx):
                     "broker's, or that record's own when the broker answered -1; timestamp_type is 0 exactly when the broker answered -1")
     fi = ctx.fn(f"{BATCH}.done")
     c = ctx.cfg(fi)
+    # the relative offset a record is written with (and later reported at: base_offset + relative offset) is the builder's counter,
+    # which must move by one exactly for every accepted record -- otherwise a record is reported at an offset it does not sit at
+    c01._count_chain(ctx, R, fi, None)
     fields = _record_fields(ctx)
     ctx.anchor(fields[:7] == ["topic", "partition", "topic_partition", "offset", "timestamp", "timestamp_type", "log_start_offset"],
                "RecordMetadata field order")
